@@ -1324,6 +1324,68 @@ static void type_child(char anchor) {
   }
 }
 
+/* ---- walk <id> (extension round): the container's Mark instance is called with a RECORDING callback; the direct oracle enumerates the occupied
+   positions on its own — Array / List elements through get(c, i), Table slots by their hash word, Tree nodes by descent from the root, Tuple items
+   up to the Terminal — and demands that each is handed over exactly once and nothing else is ("Mark presents every occupied position"). */
+#define WALK_MAX (1 << 16)
+typedef struct { uintptr_t p; long pos; } WalkP;
+static WalkP* walk_got = NULL; static WalkP* walk_exp = NULL; static size_t walk_n = 0, walk_e = 0; static int walk_over = 0;
+static long n_walks = 0, n_walk_pos = 0, n_walk_empty = 0, n_walk_last = 0, n_walk_first = 0, n_walk_wrap = 0, n_walk_kind[5] = {0, 0, 0, 0, 0};
+static void walk_cb(var rec, void* p) { (void)rec; if (walk_n < WALK_MAX) { walk_got[walk_n].p = (uintptr_t)p; walk_got[walk_n].pos = (long)walk_n; walk_n++; } else walk_over = 1; }
+static void walk_want(var p, long pos) { if (walk_e < WALK_MAX) { walk_exp[walk_e].p = (uintptr_t)p; walk_exp[walk_e].pos = pos; walk_e++; } else walk_over = 1; }
+static int walk_cmp(const void* a, const void* b) { uintptr_t x = ((const WalkP*)a)->p, y = ((const WalkP*)b)->p; return x < y ? -1 : x > y; }
+static void walk_tree(struct Tree* m, var node, long* pos) {
+  if (node == NULL || walk_over) return;
+  walk_tree(m, *Tree_Left(m, node), pos);
+  walk_want(Tree_Key(m, node), *pos); walk_want(Tree_Val(m, node), *pos); (*pos)++;
+  walk_tree(m, *Tree_Right(m, node), pos);
+}
+static __attribute__((noinline)) void do_walk(int id, var c, int kind, int shn) {   /* id < 0: the table of current(Thread) */
+  if (!walk_got) { walk_got = malloc(sizeof(WalkP) * WALK_MAX); walk_exp = malloc(sizeof(WalkP) * WALK_MAX); }
+  walk_n = 0; walk_e = 0; walk_over = 0;
+  struct Mark* m = instance(c, Mark);
+  if (m && m->mark) m->mark(c, (var)walk_got, (void(*)(var,void*))walk_cb);
+  long npos = 0, total = 0;
+  if (is_arr(kind)) {
+    npos = (long)len(c); total = npos;
+    for (long i = 0; i < npos; i++) walk_want(get(c, $I(i)), i);
+    n_walk_kind[kind == K_A ? 0 : 1]++;
+  } else if (kind == K_T) {
+    struct Table* t = c; total = (long)t->nslots;
+    for (size_t i = 0; i < t->nslots; i++) {
+      if (Table_Key_Hash(t, i) == 0) continue;
+      walk_want(Table_Key(t, i), (long)i); walk_want(Table_Val(t, i), (long)i); npos++;
+      if (i + 1 == t->nslots) n_walk_last++;
+      if (i == 0) n_walk_first++;
+      if (Table_Key_Hash(t, i) - 1 > i) n_walk_wrap++;     /* an entry that wrapped round the end of the slot array */
+    }
+    n_walk_kind[2]++;
+  } else if (kind == K_E) {
+    struct Tree* t = c; walk_tree(t, t->root, &npos); total = npos;
+    n_walk_kind[3]++;
+  } else {
+    struct Tuple* t = c; npos = (long)len(c); total = npos;
+    for (long i = 0; i < npos; i++) walk_want(t->items[i], i);
+    n_walk_kind[4]++;
+  }
+  n_walks++; n_walk_pos += npos; if (npos == 0) n_walk_empty++;
+  size_t calls = walk_n, missing = 0, extra = 0; long firstmiss = -1;
+  if (walk_over) { O("walk overflow"); return; }
+  qsort(walk_got, walk_n, sizeof(WalkP), walk_cmp); qsort(walk_exp, walk_e, sizeof(WalkP), walk_cmp);
+  size_t i = 0, j = 0;
+  while (i < walk_e || j < walk_n) {
+    if (j >= walk_n || (i < walk_e && walk_exp[i].p < walk_got[j].p)) { missing++; if (firstmiss < 0 || walk_exp[i].pos > firstmiss) firstmiss = walk_exp[i].pos; i++; }
+    else if (i >= walk_e || walk_got[j].p < walk_exp[i].p) { extra++; j++; }
+    else { i++; j++; }
+  }
+  if (shn >= 0 && npos != shn) X("sig=gc-walk-shadow line=%zu what=container %d holds %ld entries, the shadow %d", curline, id, npos, shn);
+  if (missing) X("sig=gc-mark-skips-position line=%zu what=the Mark instance of container %d does not hand %zu of its %ld occupied position(s) to the callback (position %ld of %ld among them)",
+                 curline, id, missing, npos, firstmiss, total);
+  if (extra) X("sig=gc-mark-extra-position line=%zu what=the Mark instance of container %d hands %zu pointer(s) to the callback that are no occupied position of it (or one twice)", curline, id, extra);
+  if (id < 0) O("walk tls missing=%zu extra=%zu", missing, extra);
+  else O("walk n=%ld calls=%zu missing=%zu extra=%zu", npos, calls, missing, extra);
+}
+
 #define BAD do { O("bad-op"); goto next; } while (0)
 
 int main(int argc, char** argv) {
@@ -1500,6 +1562,14 @@ int main(int argc, char** argv) {
       do_new_x(id, sh[sr].kind, 0, 0, -1, slot, sh[sr].kt, sh[sr].vt, sr);
       if (usable(id) && !content_ok((int)id)) X("sig=gc-retype-content line=%zu what=copy(%ld) does not hold the source's types and elements", curline, sr);
       if (mode_full) O("copy %ld live=%s", id, set_text(reach, 1)); else O("copy %ld", id);
+    } else if (!strcmp(w[0], "walk")) {
+      long id;
+      if (nw != 2) BAD;
+      if (!strcmp(w[1], "tls")) { do_walk(-1, ((struct Thread*)current(Thread))->tls, K_T, -1); }
+      else {
+        if (!parse_long(w[1], &id) || !usable(id) || !(is_arr(sh[id].kind) || is_map(sh[id].kind) || sh[id].kind == K_H)) BAD;
+        do_walk((int)id, P((int)id), sh[id].kind, sh[id].n);
+      }
     } else if (!strcmp(w[0], "clear")) {
       long id;
       if (nw != 2 || !parse_long(w[1], &id) || !usable(id) || !(is_arr(sh[id].kind) || is_map(sh[id].kind))) BAD;
@@ -1633,6 +1703,8 @@ int main(int argc, char** argv) {
     } else BAD;
     next: ;
   }
+  I("walk calls=%ld positions=%ld empty=%ld array=%ld list=%ld table=%ld tree=%ld tuple=%ld table-last-slot=%ld table-first-slot=%ld table-wrapped=%ld", n_walks, n_walk_pos, n_walk_empty,
+    n_walk_kind[0], n_walk_kind[1], n_walk_kind[2], n_walk_kind[3], n_walk_kind[4], n_walk_last, n_walk_first, n_walk_wrap);
   I("objects=%ld xcollects=%ld forced=%ld auto=%ld marked=%ld freed=%ld registered-at-end=%zu", n_objs, n_x, n_collect_forced, n_collect_auto, n_marked_total, n_freed_total, G()->nitems);
   exiting = 1;
   drop_instances();
